@@ -30,6 +30,12 @@ LTNext ==
            ELSE IF Ev.missing > 0 THEN PrintT(<<"MISMATCH", l, "linget", {"getMissedInstalledEntry"}>>)
            ELSE IF Ev.dup > 0 THEN PrintT(<<"MISMATCH", l, "linget", {"getDuplicateDuringReplace"}>>)
            ELSE TRUE)
+     ELSE IF Ev.ev = "linhook"
+     \* Open finding (C16): the ADD notification of an install is delivered after the instance lock is released and can be
+     \* overtaken by the DELETE notification of a Flush; the consumer then holds an entry the RIB does not
+     THEN (IF Ev.failed # "" THEN PrintT(<<"MISMATCH", l, "linhook", {"linhookSetup"}>>)
+           ELSE IF Ev.mirror # Ev.final THEN PrintT(<<"MISMATCH", l, "linhook", {"KF:postChangeOrderModifyVsFlush"}>>)
+           ELSE TRUE)
      ELSE IF Ev.ev = "linref"
      \* DELETE of a next-hop (group) while the group (prefix) that refers to it is re-sent over and over: it is
      \* referenced before, during and after every replace, so every DELETE is answered FAILED (C03, C11)
@@ -38,8 +44,10 @@ LTNext ==
            ELSE TRUE)
      ELSE IF Ev.ev # "lin" THEN TRUE
      ELSE IF ~Ev.completed THEN PrintT(<<"MISMATCH", l, "lin", {"linHang"}>>)
-     ELSE IF LinearizableTo(RibOf(Ev.initial), HistOf(Ev.ops), RibOf(Ev.final)) THEN TRUE
-     ELSE PrintT(<<"MISMATCH", l, "lin", {"notLinearizable"}>>)
+     ELSE IF ~LinearizableTo(RibOf(Ev.initial), HistOf(Ev.ops), RibOf(Ev.final)) THEN PrintT(<<"MISMATCH", l, "lin", {"notLinearizable"}>>)
+     \* C16 under concurrency: folding the ADD / DELETE notifications gives the installed entries at quiescence
+     ELSE IF RibOf(Ev.mirror) # RibOf(Ev.final) THEN PrintT(<<"MISMATCH", l, "lin", {"mirrorDiffersAtQuiescence"}>>)
+     ELSE TRUE
 LTSpec == LTInit /\ [][LTNext]_l
 
 Matched == TLCGet("stats").diameter - 1
